@@ -24,11 +24,16 @@ func (r *seqReporter) ReportCounter(name string, tags map[string]string, value i
 	verifrt.LogAppend(evCounter)
 	verifrt.LogAppend(uint64(value))
 }
-func (r *seqReporter) ReportGauge(name string, tags map[string]string, value float64)   {}
-func (r *seqReporter) ReportTimer(name string, tags map[string]string, d time.Duration) {}
+// calls other than counter deliveries (none are made before Close in these harnesses)
+var c08OtherCalls int
+
+func (r *seqReporter) ReportGauge(name string, tags map[string]string, value float64)   { c08OtherCalls++ }
+func (r *seqReporter) ReportTimer(name string, tags map[string]string, d time.Duration) { c08OtherCalls++ }
 func (r *seqReporter) ReportHistogramValueSamples(name string, tags map[string]string, b Buckets, lo, hi float64, s int64) {
+	c08OtherCalls++
 }
 func (r *seqReporter) ReportHistogramDurationSamples(name string, tags map[string]string, b Buckets, lo, hi time.Duration, s int64) {
+	c08OtherCalls++
 }
 func (r *seqReporter) Capabilities() Capabilities { return capabilitiesReportingTagging }
 func (r *seqReporter) Flush()                     { verifrt.LogAppend(evFlush) }
@@ -159,6 +164,36 @@ func c08Close(interval bool, ticks, closers, preempt int, withCloser bool) {
 	c1.Inc(5)
 	root.Tagged(map[string]string{"k": "v"}).Gauge("g").Update(1)
 	verifrt.Assert("c08.scopes-obtained-after-close-are-inert", late.(*scope) == NoopScope.(*scope))
+	// every way of obtaining a scope afterwards, from the root or from an old subscope, with
+	// any tag map (nil and empty included); every kind of metric, timers report at once
+	c08OtherCalls = 0
+	var derived []Scope
+	how := 0 // concurrent variants: one derivation, the sequential one: all of them
+	if preempt == 0 {
+		how = verifrt.Choose("derivation-after-close", 5)
+	}
+	switch how {
+	case 0:
+		derived = append(derived, root.Tagged(nil))
+	case 1:
+		derived = append(derived, root.Tagged(map[string]string{}))
+	case 2:
+		derived = append(derived, sub.Tagged(map[string]string{}), sub.SubScope(""))
+	case 3:
+		derived = append(derived, root.SubScope(""), root.Tagged(map[string]string{"k": "v"}))
+	case 4:
+		derived = append(derived, sub.Tagged(nil), sub.SubScope("t"))
+	}
+	for _, d := range derived {
+		d.Counter("x").Inc(1)
+		d.Gauge("g").Update(1)
+		d.Timer("t").Record(time.Second)
+		d.Timer("t").Start().Stop()
+		d.Histogram("h", ValueBuckets{1}).RecordValue(1)
+		verifrt.Assert("c08.scope-obtained-after-close-does-not-report", !d.Capabilities().Reporting())
+	}
+	verifrt.Assert("c08.scopes-obtained-after-close-never-reach-the-reporter",
+		c08OtherCalls == 0 && verifrt.LogLen() == total)
 	verifrt.Reach("c08.close.end")
 }
 
